@@ -247,7 +247,7 @@ def run(report):
     for l in ls:
         for f in l.functions:
             report.function(f, src)
-    run_laws(report, MOD, ls, "C10")
+    run_laws(report, MOD, ls, "C10", plain="quick")
     report.extra["exhaustive"] = True
     report.extra["shape_rule"] = ("operand lengths 0..3 x 0..3 (x 0..3 for three-operand clauses); coordinate-system "
                                   "combinations: same Cartesian instance, two different instances of each kind pair, "
